@@ -56,7 +56,7 @@ class Snapshot:
         if isinstance(v, SymSeq):
             if id(v) in self.memo:
                 return self.memo[id(v)]
-            c = SymSeq(v.t, v.elem, v.facts)
+            c = v.copy()
             self.memo[id(v)] = c
             self.live[id(v)] = v
             return c
@@ -97,6 +97,12 @@ class SnapState:
         if isinstance(v, SymObj):
             v.st = self
         return v
+
+
+def symseq_equal(a, b):
+    """element-wise equality of two symbolic lists (a universally quantified goal: the solver skolemises it)"""
+    j = z3.Int('j!seq')
+    return z3.And(a.n == b.n, z3.ForAll([j], z3.Implies(z3.And(j >= 0, j < a.n), z3.Select(a.arr, j) == z3.Select(b.arr, j))))
 
 
 def resolve(ip, roots, path):
@@ -212,8 +218,8 @@ class FrameDiff:
             elif isinstance(live, SymSeq):
                 if (lid, '*') in allowed:
                     continue
-                if not live.t.eq(clone.t):
-                    out.append(('symbolic list %r' % (live,), live.t == clone.t))
+                if not (live.arr.eq(clone.arr) and live.n.eq(clone.n)):
+                    out.append(('symbolic list %r' % (live,), symseq_equal(live, clone)))
             elif isinstance(live, SymMap):
                 if (lid, '*') in allowed:
                     continue
@@ -295,8 +301,10 @@ def fresh_like(ip, v, name, kind=None):
         ctx.counter += 1
         return BitSet(lambda j, f=f: f(j), None)
     if isinstance(v, SymSeq):
-        t = ctx.fresh(name, v.t.sort())
-        return SymSeq(t, v.elem)
+        arr = ctx.fresh(name, v.arr.sort())
+        n = ctx.fresh(name + '_len', IntSort)
+        ctx.assume(n >= 0)
+        return SymSeq(arr, n, v.elem)
     if isinstance(v, SymMap):
         m = SymMap(ctx.fresh(name + '_dom', v.dom.sort()), ctx.fresh(name + '_val', v.val.sort()), v.kkind, v.vkind,
                    ctx.fresh(name + '_size', IntSort) if v.size is not None else None)
@@ -318,7 +326,7 @@ def havoc_path(ip, roots, path, kinds=None):
             # mutable symbolic container: havoc in place (aliases see it)
             n = fresh_like(ip, cur, path.replace('.', '_'))
             if isinstance(cur, SymSeq):
-                cur.t = n.t
+                cur.arr, cur.n = n.arr, n.n
                 cur.facts = None
             else:
                 cur.dom, cur.val, cur.size = n.dom, n.val, n.size
